@@ -97,6 +97,18 @@ fn run_trip(ctx: &Ctx, id: u64, st: &mut Stats) {
         ctx.inconclusive(&format!("harness could not establish the generated state (case {}: {})", id, d0[0].item));
         return;
     }
+    // A locked 128K machine ignores further paging writes; a program may well issue some before the
+    // snapshot is taken. They must change nothing – neither the machine nor what gets saved.
+    if is128 && c0.locked && rng.chance(2, 3) {
+        let keep = ma.regs();
+        for _ in 0..1 + rng.below(3) {
+            let v = rng.u8();
+            ma.out(0x7FFD, v);
+        }
+        ma.set_regs(&keep);
+        ma.set_clock(save_clock);
+        *st.by_kind.entry("ignored-paging-writes-before-save".into()).or_insert(0) += 1;
+    }
     let mut rec = VecRecorder { data: vec![], chunk: *rng.pick(&[0usize, 0, 1, 1000, 16384]) };
     let res = crate::host::catch(|| ma.emu.save_snapshot(SnapshotRecorder::Sna(&mut rec)).map_err(|e| format!("{:?}", e)));
     match res {
